@@ -66,7 +66,7 @@ def cfgs(tier):
     out.append(("conditional_resolved", dict(
         MCW={"pools": [[[I("gpu", "g1", 1)]]], "fl": flags(timeout=12, resolve_conditionals=True)}, MCTasks=tkr, MCGraphs=grc,
         MCInit=[dyn(0, 8), dyn(-1, 8, 1000000), dyn(-1, 8, 0), dyn(-1, 8)], SchedRt=0, Frontier={"la": 4, "rtg": False, "retract": False},
-        Delays={0, 1}, MaxInvocations=3, AllowCancel=False)))
+        Delays={0, 1} if tier == "thorough" else {0}, MaxInvocations=3 if tier == "thorough" else 2, AllowCancel=False)))
     # E: closed loop: three invocations of a one-task job graph, concurrency 2 (refill on completion)
     tke = [task(1, 1, "r@J0", [], [], [strat(1, 2)], src=True, sink=True), task(2, 2, "r@J1", [], [], [strat(1, 1)], src=True, sink=True),
            task(3, 3, "r@J2", [], [], [strat(1, 2)], src=True, sink=True)]
@@ -81,7 +81,7 @@ def cfgs(tier):
     tkf = [task(1, 1, "Cam@T@0", [], [2, 3], [strat(1, 2)], src=True), task(2, 1, "Det@T@0", [1], [], [strat(1, 1)], sink=True),
            task(3, 1, "Cam@T@1", [1], [4], [strat(1, 2)], src=True), task(4, 1, "Det@T@1", [3], [], [strat(1, 1)], sink=True)]
     grf = [{"g": 1, "name": [84], "tasks": [1, 2, 3, 4], "closed": False, "jg": "", "cp": 6, "conc": 0, "ninv": 0, "init": True}]
-    out.append(("multi_timestamp", dict(
+    (out if tier == "thorough" else []).append(("multi_timestamp", dict(
         MCW={"pools": [[[I("gpu", "g1", 2)]]], "fl": flags(timeout=12)}, MCTasks=tkf, MCGraphs=grf,
         MCInit=[dyn(0, 9), dyn(-1, 9), dyn(1, 10), dyn(-1, 10)], SchedRt=0, Frontier={"la": 3, "rtg": False, "retract": False},
         Delays={0, 1}, MaxInvocations=3 if tier == "thorough" else 2, AllowCancel=False)))
